@@ -21,6 +21,7 @@ import traceback
 HERE = os.path.dirname(os.path.abspath(__file__))
 VERIF = os.path.dirname(HERE)
 REPO = os.environ.get('VERIF_REPO', '/repo')
+OUT = os.environ.get('VERIF_OUT', VERIF)  # evidence/ and replays/ go here (mutant self-tests redirect it)
 sys.path.insert(0, HERE)
 import core
 import rulekit
@@ -150,7 +151,7 @@ def run_property(prop, tier, workdir, facts_cache):
     if not canary['ok']:
         extra_viol.append(('%s.canary|%s' % (prop, canary['detail'][:80]), 'checker self-test (canary fixtures) failed: ' + canary['detail']))
 
-    os.makedirs(os.path.join(VERIF, 'replays'), exist_ok=True)
+    os.makedirs(os.path.join(OUT, 'replays'), exist_ok=True)
     n_viol = 0
     printed_known = set()
     lines = []
@@ -161,7 +162,7 @@ def run_property(prop, tier, workdir, facts_cache):
                 lines.append('KNOWN-FINDING: property=%s %s -- %s' % (prop, key, known_keys[key].get('what', '')))
             continue
         n_viol += 1
-        rp = os.path.join(VERIF, 'replays', '%s-%s.json' % (prop, hashlib.sha1(key.encode()).hexdigest()[:12]))
+        rp = os.path.join(OUT, 'replays', '%s-%s.json' % (prop, hashlib.sha1(key.encode()).hexdigest()[:12]))
         with open(rp, 'w') as f:
             json.dump({'property': prop, 'key': key, 'tier': tier, 'instances': [v.to_json() for v in vs]}, f, indent=1)
         for v in vs:
@@ -174,7 +175,7 @@ def run_property(prop, tier, workdir, facts_cache):
                 lines.append('KNOWN-FINDING: property=%s %s -- %s' % (prop, key, known_keys[key].get('what', '')))
             continue
         n_viol += 1
-        rp = os.path.join(VERIF, 'replays', '%s-%s.json' % (prop, hashlib.sha1(key.encode()).hexdigest()[:12]))
+        rp = os.path.join(OUT, 'replays', '%s-%s.json' % (prop, hashlib.sha1(key.encode()).hexdigest()[:12]))
         with open(rp, 'w') as f:
             json.dump({'property': prop, 'key': key, 'tier': tier, 'message': msg}, f, indent=1)
         lines.append('  [%s] %s' % (key, msg))
@@ -238,8 +239,8 @@ def run_property(prop, tier, workdir, facts_cache):
         'wall_s': round(time.time() - t0, 2),
         'violations': n_viol,
     }
-    os.makedirs(os.path.join(VERIF, 'evidence'), exist_ok=True)
-    with open(os.path.join(VERIF, 'evidence', prop + '.json'), 'w') as f:
+    os.makedirs(os.path.join(OUT, 'evidence'), exist_ok=True)
+    with open(os.path.join(OUT, 'evidence', prop + '.json'), 'w') as f:
         json.dump(ev, f, indent=1)
     print('== %s %s: %d obligations, %d discharged, %d rule instances, configs %s, %.1fs' % (prop, tier, obligations, discharged, len(per_rule), ','.join(cfgs), time.time() - t0))
     for l in lines:
@@ -294,8 +295,8 @@ def main():
             except Exception as e:
                 print('check crashed (fail closed):', e)
                 traceback.print_exc()
-                os.makedirs(os.path.join(VERIF, 'replays'), exist_ok=True)
-                rp = os.path.join(VERIF, 'replays', '%s-crash.json' % p)
+                os.makedirs(os.path.join(OUT, 'replays'), exist_ok=True)
+                rp = os.path.join(OUT, 'replays', '%s-crash.json' % p)
                 with open(rp, 'w') as f:
                     json.dump({'property': p, 'error': str(e)}, f)
                 print('VIOLATION property=%s replay=%s' % (p, rp))
